@@ -11,16 +11,28 @@
 
 static unsigned g_groups = C10_GROUPS;
 
+// entity counts of the base family (= specs.py BASE_COUNTS), to skip out-of-range cases before building anything
+static const unsigned char BASE_N[N_BASES][4] = {{0,0,0,0},{5,5,1,0},{4,6,4,1},{5,9,7,2},{6,11,8,2},{7,12,8,2},{5,9,9,3},{8,12,6,1},{12,20,11,2},{7,12,9,2},{4,5,2,0},{6,12,10,3}};
+static inline unsigned base_op_count(unsigned base, unsigned op) {
+  unsigned nv = BASE_N[base][0], ne = BASE_N[base][1], nf = BASE_N[base][2], nc = BASE_N[base][3];
+  switch (op) {
+  case OP_NONE: return 1;
+  case OP_DEL_V: return nv; case OP_DEL_E: return ne; case OP_DEL_F: return nf; case OP_DEL_C: return nc;
+  case OP_SWAP_V: return nv * nv; case OP_SWAP_E: return ne * ne; case OP_SWAP_F: return nf * nf; case OP_SWAP_C: return nc * nc;
+  case OP_GC: case OP_ADD_V: return 1;
+  default: return 0;
+  }
+}
+
 static __attribute__((noinline)) void do_case(unsigned i) {
   unsigned base = v_param(0), mode = v_param(1), op = v_param(2), chunk = v_param(3);
+  unsigned idx = chunk * CASES_PER_QUERY + i;
+  if (idx >= base_op_count(base, op)) return;
   TopologyKernel m;
   set_mode(m, mode);
   build_base(m, base);
-  if (op == OP_NONE) {
-    if (chunk != 0 || i != 0) return;
-  } else {
-    unsigned idx = chunk * CASES_PER_QUERY + i;
-    if (idx >= op_arity_count(m, op)) return;
+  if (op != OP_NONE) {
+    V_ASSERT(base_op_count(base, op) == op_arity_count(m, op));   // harness self-check of the table
     unsigned a, b; op_decode(m, op, idx, a, b);
     if (!op_valid(m, op, a, b)) return;
     apply_op(m, op, a, b);
